@@ -18,21 +18,29 @@ CALLS = {   # name -> (call dict, abstract declared files, abstract outputs)
     "fit7": ({"op": "fit", "n": 3, "seed": 7}, ["lib3"], ["nll", "tmp"]),
     "fitother": ({"op": "fit", "n": 3, "seed": 3, "run": "other"}, ["lib3"], ["otherout", "tmp"]),
     "fisher": ({"op": "fisher", "n": 3}, ["lib3", "nll"], ["fish", "tmp"]),
+    # an earlier COMPLETED Fisher run on two ranks (executed by the stand-in before the history process starts; only as first element)
+    "fisherP2": ({"op": "fisher", "n": 3, "ranks": 2}, ["lib3", "nll"], ["fish", "tmp"]),
+    # the non-default option ignore_previous_eqns: same complexity, another function set earlier in the same process
+    "fitprevext": ({"op": "fit", "n": 3, "seed": 0, "prev": True, "fn_set": "ext_maths", "run": "pe"}, ["libext"], ["otherout", "tmp"]),
+    "fitprev": ({"op": "fit", "n": 3, "seed": 0, "prev": True, "run": "pc"}, ["lib3"], ["nllprev", "tmp"]),
     "match": ({"op": "match", "n": 3}, ["lib3", "nll", "fish"], ["cm", "tmp"]),
     "combine": ({"op": "combine", "n": 3}, ["lib3", "cm"], ["final", "tmp"]),
 }
-ABSTRACT = ["lib2", "lib3", "lib4", "libext", "libsub", "nll", "fish", "cm", "final", "tmp", "otherout", "rounds3"]
+ABSTRACT = ["lib2", "lib3", "lib4", "libext", "libsub", "nll", "fish", "cm", "final", "tmp", "otherout", "rounds3", "nllprev"]
 # concrete declared inputs / outputs of the observed calls (paths relative to the scratch root)
+LIBC = "esr/function_library/core_maths/"
 DECL = {"gen3": [], "gen4": [],
+        "fitprev": [LIB3 + "unique_equations_3.txt", LIBC + "compl_1/unique_equations_1.txt", LIBC + "compl_2/unique_equations_2.txt", "data_r/d.txt"],
         "fit": [LIB3 + "unique_equations_3.txt", "data_r/d.txt"],
         "fisher": [LIB3 + "unique_equations_3.txt", "data_r/d.txt", OUT + "negloglike_comp3.dat"],
         "match": [LIB3 + "all_equations_3.txt", LIB3 + "matches_3.txt", LIB3 + "inv_subs_3.txt", "data_r/d.txt", OUT + "negloglike_comp3.dat", OUT + "derivs_comp3.dat"],
         "combine": [LIB3 + "unique_equations_3.txt", LIB3 + "all_equations_3.txt", LIB3 + "aifeyn_3.txt", "data_r/d.txt", OUT + "codelen_matches_comp3.dat"]}
 OUTS = {"gen3": [LIB3], "gen4": ["esr/function_library/core_maths/compl_4/"],
+        "fitprev": ["data_r/fitting/output/output_pc/negloglike_comp3.dat"],
         "fit": [OUT + "negloglike_comp3.dat"], "fisher": [OUT + "codelen_comp3_deriv.dat", OUT + "derivs_comp3.dat"],
         "match": [OUT + "codelen_matches_comp3.dat"],
         "combine": [OUT + "final_3.dat", OUT + "combine_DL_comp3.dat", OUT + "combine_DL_fcn_comp3.dat", OUT + "results_pretty_3.txt"]}
-OBSERVED = ["gen3", "gen4", "fit", "fisher", "match", "combine"]
+OBSERVED = ["gen3", "gen4", "fit", "fisher", "match", "combine", "fitprev"]
 
 
 def _tla_set(xs):
@@ -63,6 +71,9 @@ def _baseline(r, s0):
     L, _ = common.gen_library(r, s0, "core_maths", 3)
     if L is None:
         return False
+    for nm, nn in (("core_maths", 1), ("core_maths", 2), ("ext_maths", 1), ("ext_maths", 2), ("ext_maths", 3)):
+        if common.gen_library(r, s0, nm, nn)[0] is None:
+            return False
     dd = os.path.join(s0, "data_r")
     os.makedirs(dd)
     data.gauss_file(os.path.join(dd, "d.txt"), lambda x: 1.5 * x * x + 0.7, n=25, sigma=0.2)
@@ -123,7 +134,14 @@ def run(tier, replay=None):
         for X, hist, prem in batch:
             sA = _clone(s0)
             scr.append(sA)
-            calls = [CALLS[c][0] for c in hist] + [CALLS[X][0]]
+            pre = [c for c in hist if CALLS[c][0].get("ranks")]
+            for c in pre:          # an earlier completed multi-rank run of a stage, in its own processes
+                cd = CALLS[c][0]
+                rr = coord.run_ranks(cd["ranks"], "harness.targets:fit_stages", ("gauss", "d.txt", cd.get("run", "r"), os.path.join(sA, "data_r"), "core_maths", cd["n"], [cd["op"]], 0,
+                                                                                 {"fit": {"tmax": 120}, "fisher": {"tmax": 120}, "match": {"tmax": 120}}), sA, timeout=1800)
+                if rr["status"] != "ok":
+                    raise RuntimeError("pre-history stage run failed: %s" % rr["detail"])
+            calls = [CALLS[c][0] for c in hist if c not in pre] + [CALLS[X][0]]
             args.append((calls, os.path.join(sA, "hist_out.json")))
         procs = [pool.parallel("harness.history:run_history", [a], sc) for a, sc in zip(args, scr)] if False else None
         # one process per history, all of the batch concurrently
@@ -172,7 +190,7 @@ def run(tier, replay=None):
             for rel in DECL[X]:
                 ids.setdefault(rel, len(ids) + 1)
             initial = [os.path.exists(os.path.join(s0, f)) for f, _ in sorted(ids.items(), key=lambda kv: kv[1])]
-            trace = [{"ev": "header", "observed": len(hist) + 1, "declared": [ids[x] for x in DECL[X]], "nfiles": len(ids), "initial": initial}]
+            trace = [{"ev": "header", "observed": len([c for c in hist if not CALLS[c][0].get("ranks")]) + 1, "declared": [ids[x] for x in DECL[X]], "nfiles": len(ids), "initial": initial}]
             for e in ev:
                 t = {"ev": e["ev"], "call": e["call"], "f": ids[e["f"]], "mode": e.get("mode", "-"), "existed": bool(e.get("existed", False))}
                 trace.append(t)
